@@ -1,7 +1,7 @@
 //! C20 — packet structs in utils serialise and parse consistently with the codec.
 
 use crate::common::*;
-use crate::refm::{crc_ref, Desc, Kind};
+use crate::refm::{self, crc_ref, Desc, Kind};
 use crate::report::{Acc, Report, Tier};
 use crate::rx::*;
 use crate::tx::*;
@@ -24,6 +24,23 @@ fn lbl_of(d: &Desc) -> Lbl {
     }
 }
 
+/// the crate's generate() for a description
+fn generate(d: &Desc) -> Result<Vec<u8>, Panicked> {
+    let n = d.print().len();
+    let gl = (n - 2) as u16;
+    let l = lbl_of(d);
+    catch(|| {
+        let mut b = vec![0u8; n];
+        match d.kind {
+            Kind::Complete => GseCompletePacket::new(gl, d.type_field, l.to_label(), &d.payload).generate(&mut b),
+            Kind::First => GseFirstFragPacket::new(gl, d.frag_id, d.total_len, d.type_field, l.to_label(), &d.payload).generate(&mut b),
+            Kind::Inter => GseIntermediatePacket::new(gl, d.frag_id, &d.payload).generate(&mut b),
+            Kind::End => GseEndFragPacket::new(gl, d.frag_id, &d.payload, d.crc).generate(&mut b),
+        }
+        b
+    })
+}
+
 /// run every clause for one description
 fn check(rep: &Report, acc: &mut Acc, d: &Desc, rank: u64, total_consistent_with_pdu: Option<usize>) {
     let want = d.print();
@@ -34,16 +51,7 @@ fn check(rep: &Report, acc: &mut Acc, d: &Desc, rank: u64, total_consistent_with
     acc.sout(d.kind.name(), d.lt as u32);
     let kn = d.kind.name();
     // generate
-    let gen = catch(|| {
-        let mut b = vec![0u8; want.len()];
-        match d.kind {
-            Kind::Complete => GseCompletePacket::new(gl, d.type_field, l.to_label(), &d.payload).generate(&mut b),
-            Kind::First => GseFirstFragPacket::new(gl, d.frag_id, d.total_len, d.type_field, l.to_label(), &d.payload).generate(&mut b),
-            Kind::Inter => GseIntermediatePacket::new(gl, d.frag_id, &d.payload).generate(&mut b),
-            Kind::End => GseEndFragPacket::new(gl, d.frag_id, &d.payload, d.crc).generate(&mut b),
-        }
-        b
-    });
+    let gen = generate(d);
     acc.transitions += 1;
     acc.calls += 1;
     let bytes = match gen {
@@ -125,7 +133,37 @@ fn check(rep: &Report, acc: &mut Acc, d: &Desc, rank: u64, total_consistent_with
         acc.calls += 1;
         acc.compared += 1;
         if eb != bytes {
-            viol(rep, &format!("C20|generate-vs-encapsulator|{}", kn), rank, format!("generate() = {} but the encapsulator emits {} for the same fields", hexs(&bytes), hexs(&eb)), d);
+            // How many payload bytes a fragment carries is the sender's choice: when the emitted packet differs from
+            // the description ONLY by carrying a shorter slice of the same payload (possibly as an intermediate
+            // instead of an end packet), the clause is judged on the description of what was emitted.
+            let emitted = refm::parse(&eb, &|_| None).ok().filter(|p| p.gse_len + 2 == eb.len()).map(|p| Desc {
+                kind: p.kind,
+                lt: p.lt,
+                frag_id: p.frag_id.unwrap_or(0),
+                total_len: p.total_len.unwrap_or(0),
+                type_field: p.type_field.unwrap_or(0),
+                label: p.label.clone(),
+                ext_bytes: vec![],
+                payload: p.payload.clone(),
+                crc: p.crc.unwrap_or(0),
+                gse_len: None,
+            });
+            let only_shorter = emitted.as_ref().map_or(false, |e| {
+                let kind_ok = e.kind == d.kind || (d.kind == Kind::End && e.kind == Kind::Inter);
+                let crc_ok = e.kind != Kind::End || e.crc == d.crc;
+                kind_ok && crc_ok && e.lt == d.lt && e.frag_id == d.frag_id && e.total_len == d.total_len && e.type_field == d.type_field && e.label == d.label && e.payload.len() < d.payload.len() && d.payload.starts_with(&e.payload) && e.print() == eb
+            });
+            match (only_shorter, emitted) {
+                (true, Some(e)) => {
+                    acc.calls += 1;
+                    match generate(&e) {
+                        Ok(g) if g == eb => {}
+                        Ok(g) => viol(rep, &format!("C20|generate-vs-encapsulator|{}", e.kind.name()), rank, format!("the encapsulator carries {} of the {} payload bytes and emits {} but generate() gives {} for those fields", e.payload.len(), d.payload.len(), hexs(&eb), hexs(&g)), &e),
+                        Err(p) => viol(rep, &format!("C20|generate-panic|{}|{}", e.kind.name(), p.coarse()), rank, format!("generate panics at {}", p.0), &e),
+                    }
+                }
+                _ => viol(rep, &format!("C20|generate-vs-encapsulator|{}", kn), rank, format!("generate() = {} but the encapsulator emits {} for the same fields", hexs(&bytes), hexs(&eb)), d),
+            }
         }
     }
     // what the real decapsulator reads from the generated bytes
@@ -163,8 +201,9 @@ fn check(rep: &Report, acc: &mut Acc, d: &Desc, rank: u64, total_consistent_with
             o => bad = Some(format!("decap refuses the generated bytes: {}", o.brief())),
         },
         Kind::First => {
-            if (d.total_len as usize) <= d.payload.len() {
-                // total length not larger than the first payload: not a well-formed description
+            if (d.total_len as usize) <= d.payload.len() + 2 + d.label.len() {
+                // total length not larger than what this fragment alone accounts for (protocol type, label, payload):
+                // no PDU can have this first fragment, a receiver may refuse it at once
             } else {
                 match &out {
                     DecapOut::Fragmented { meta, consumed } => {
